@@ -67,6 +67,15 @@ class World:
     def path_to(self, func: str) -> str:
         return " -> ".join(p.split(".", 2)[-1] if p.startswith("a5.") else p for p in self.model.call_path(self.reach, func))
 
+    def reached_by_name_only(self, sw: "SharedWrite") -> Optional[str]:
+        """a call on the way from the owner to the store whose receiver class is not known (resolved by method name to several
+        classes): the effect may belong to another class's method and is no evidence against this object"""
+        for cf, cl in sw.chain:
+            for cs in self.model.calls.get(cf, []):
+                if getattr(cs.node, "lineno", -1) == cl and cs.by_name:
+                    return f"`{core.src(cs.node)[:60]}` in {cf} line {cl} is resolved by method name only ({len(cs.callees)} candidate classes)"
+        return None
+
     def shared_writes(self) -> List[SharedWrite]:
         groups: Dict[Tuple[str, Optional[str], str, str], SharedWrite] = {}
         for f in sorted(self.reach):
@@ -330,6 +339,57 @@ def _ancestors(n: ast.AST, parents: Dict[int, ast.AST]):
     while cur is not None:
         yield cur
         cur = parents.get(id(cur))
+
+
+def lazy_constant(model: Model, func: str, name: str) -> Optional[str]:
+    """`global NAME` published once: every assignment to NAME in `func` stores a value that does not depend on the function's
+    parameters (a table built on first use), and the function tests NAME (or a local copy of it) against None before building.
+    Racing threads then store equal values, and a reader sees None or the complete object.  Returns a description, or None."""
+    fi = model.funcs.get(func)
+    if fi is None or fi.is_module_body:
+        return None
+    fn = fi.node
+    if not any(isinstance(n, ast.Global) and name in n.names for n in ast.walk(fn)):
+        return None
+    params = {a.arg for a in fn.args.args + fn.args.kwonlyargs if a.arg not in ("self", "cls")}
+    assigns = [n for n in ast.walk(fn) if isinstance(n, ast.Assign) and any(isinstance(t, ast.Name) and t.id == name for t in n.targets)]
+    if not assigns or any(isinstance(n, ast.AugAssign) and isinstance(n.target, ast.Name) and n.target.id == name for n in ast.walk(fn)):
+        return None
+    copies = {name} | {t.id for n in ast.walk(fn) if isinstance(n, ast.Assign) and isinstance(n.value, ast.Name) and n.value.id == name
+                       for t in n.targets if isinstance(t, ast.Name)}
+
+    def block_of(stmt):
+        for n in ast.walk(fn):
+            for fld in ("body", "orelse", "finalbody"):
+                b = getattr(n, fld, None)
+                if isinstance(b, list) and any(x is stmt for x in b):
+                    return b
+        return None
+    for a in assigns:
+        value = a.value
+        if isinstance(value, ast.Name) and value.id in copies and value.id != name:
+            # the local that is published: what was it bound to just before, in the same block?
+            blk = block_of(a) or []
+            prev = None
+            for st in blk:
+                if st is a:
+                    break
+                if isinstance(st, ast.Assign) and any(isinstance(t, ast.Name) and t.id == value.id for t in st.targets):
+                    prev = st.value
+            if prev is None:
+                return None
+            value = prev
+        deps = derive_vars(fn, _names(value)) if not isinstance(value, ast.Name) or value.id not in copies else {name}
+        if isinstance(value, ast.Name):
+            deps = derive_vars(fn, {value.id})
+        if deps & params or deps & copies:
+            return None        # computed from an argument, or from the value it replaces (an update, not a first-use construction)
+    tested = any(isinstance(n, (ast.If, ast.While, ast.IfExp)) and any(isinstance(x, ast.Name) and x.id in copies for x in ast.walk(n.test))
+                 for n in ast.walk(fn))
+    if not tested:
+        return None
+    return (f"`{core.src(assigns[0])[:70]}`: the stored value is computed neither from a parameter of {func.rsplit('.', 1)[-1]} nor from the "
+            f"value it replaces, and the variable is tested before it is (re)built")
 
 
 def recognise_global_memo(model: Model, func: str) -> Optional[List[str]]:
@@ -753,6 +813,91 @@ def value_dependencies(model: Model, ci: CacheInfo) -> Tuple[Set[str], List[str]
     return dep, local_dep
 
 
+def _mentions_attr(e: ast.AST, attr: str) -> bool:
+    return any(isinstance(x, ast.Attribute) and x.attr == attr for x in ast.walk(e))
+
+
+def _is_fresh_tally(v: ast.expr) -> bool:
+    if isinstance(v, ast.Dict):
+        return all(isinstance(x, ast.Constant) for x in v.values) and all(k is not None and isinstance(k, ast.Constant) for k in v.keys)
+    if isinstance(v, ast.Call) and isinstance(v.func, ast.Name) and v.func.id in ("Counter", "dict") and not v.args and not v.keywords:
+        return True
+    if isinstance(v, ast.Call) and isinstance(v.func, ast.Name) and v.func.id == "defaultdict" and len(v.args) == 1 \
+            and isinstance(v.args[0], ast.Name) and v.args[0].id == "int":
+        return True
+    if isinstance(v, ast.BinOp) and isinstance(v.op, ast.Mult) and isinstance(v.left, ast.List) and all(isinstance(x, ast.Constant) for x in v.left.elts):
+        return True
+    return False
+
+
+def _is_report_call(b: ast.stmt) -> bool:
+    """print(...) / logger.debug(...) / logging.warning(...) / warnings.warn(...): output that no result is computed from"""
+    if not (isinstance(b, ast.Expr) and isinstance(b.value, ast.Call)):
+        return False
+    f = b.value.func
+    if isinstance(f, ast.Name):
+        return f.id == "print"
+    if isinstance(f, ast.Attribute):
+        return f.attr in ("debug", "info", "warning", "error", "critical", "log", "warn") and \
+            isinstance(f.value, ast.Name) and f.value.id in ("logger", "logging", "log", "_logger", "_log", "LOGGER", "warnings")
+    return False
+
+
+def _only_reports(if_node: ast.If) -> bool:
+    return bool(if_node.body) and all(_is_report_call(b) for b in if_node.body) and not if_node.orelse
+
+
+def _flows_only_into_report_guards(fn: ast.AST, use: ast.AST, parents: Dict[int, ast.AST]) -> bool:
+    """the attribute use is (part of) the value of `local = ...`, and `local` is used nowhere but in tests of ifs that only report"""
+    cur = use
+    while id(cur) in parents and not isinstance(parents[id(cur)], ast.stmt):
+        cur = parents[id(cur)]
+    st = parents.get(id(cur))
+    if not (isinstance(st, ast.Assign) and st.value is cur and len(st.targets) == 1 and isinstance(st.targets[0], ast.Name)):
+        return False
+    local = st.targets[0].id
+    for n in ast.walk(fn):
+        if isinstance(n, ast.Name) and n.id == local and isinstance(n.ctx, ast.Load):
+            top = n
+            while id(top) in parents and not isinstance(parents[id(top)], ast.stmt):
+                top = parents[id(top)]
+            holder = parents.get(id(top))
+            if not (isinstance(holder, ast.If) and holder.test is top and _only_reports(holder)):
+                return False
+        if isinstance(n, ast.Name) and n.id == local and isinstance(n.ctx, ast.Store) and n is not st.targets[0]:
+            return False
+    return True
+
+
+def global_tally_problems(model: Model, qual: str, reach: Set[str]) -> List[str]:
+    """module-level dict / Counter used as a table of counters:  NAME[key] += n.  Problems = uses in API-reachable functions other
+    than such an increment (a read there could carry the count into a result)"""
+    mod, name = qual.rsplit(".", 1)
+    problems: List[str] = []
+    for fq, fi in model.funcs.items():
+        if fi.module != mod or fi.is_module_body:
+            continue
+        if name in {a.arg for a in fi.node.args.args + fi.node.args.kwonlyargs}:
+            continue
+        parents: Dict[int, ast.AST] = {}
+        for p in ast.walk(fi.node):
+            for c in ast.iter_child_nodes(p):
+                parents[id(c)] = p
+        for n in ast.walk(fi.node):
+            if isinstance(n, ast.Name) and n.id == name:
+                par = parents.get(id(n))
+                gp = parents.get(id(par)) if par is not None else None
+                if isinstance(par, ast.Subscript) and par.value is n and isinstance(gp, ast.AugAssign) and gp.target is par \
+                        and isinstance(gp.op, (ast.Add, ast.Sub)) and not any(isinstance(x, ast.Name) and x.id == name for x in ast.walk(gp.value)):
+                    continue
+                if isinstance(par, ast.Global):
+                    continue
+                if fq not in reach:
+                    continue
+                problems.append(f"`{name}` is used in {fq} line {n.lineno} other than as `{name}[key] += n`")
+    return problems
+
+
 def uses_of_attribute(model: Model, attr: str) -> List[Tuple[str, ast.AST, str]]:
     """(function, node, role) for every `.attr` access in the package"""
     out = []
@@ -769,16 +914,23 @@ def uses_of_attribute(model: Model, attr: str) -> List[Tuple[str, ast.AST, str]]
                 role = "read"
                 if isinstance(par, ast.AugAssign) and par.target is n:
                     role = "aug"
+                elif isinstance(par, ast.Subscript) and par.value is n and isinstance(parents.get(id(par)), ast.AugAssign) \
+                        and parents[id(par)].target is par and isinstance(parents[id(par)].op, (ast.Add, ast.Sub)) \
+                        and not any(_mentions_attr(x, attr) for x in [par.slice, parents[id(par)].value]):
+                    role = "aug-slot"          # self.tally[key] += 1
+                elif isinstance(par, ast.Assign) and n in par.targets and fq.endswith(".__init__") and _is_fresh_tally(par.value):
+                    role = "init"              # self.tally = {"a": 0, "b": 0} / Counter() / defaultdict(int) / [0] * k
+                elif isinstance(par, ast.AnnAssign) and par.target is n:
+                    role = "init" if par.value is None or isinstance(par.value, ast.Constant) or (fq.endswith(".__init__") and _is_fresh_tally(par.value)) else "store"
                 elif isinstance(par, ast.Assign) and n in par.targets:
                     role = "init" if isinstance(par.value, ast.Constant) else "store"
+                elif isinstance(par, ast.Compare) and isinstance(parents.get(id(par)), ast.If) and parents[id(par)].test is par \
+                        and _only_reports(parents[id(par)]):
+                    role = "guard-print"
+                elif _flows_only_into_report_guards(fi.node, n, parents):
+                    role = "guard-print"          # local = self.counter [== N]; if local [== N]: print(...)
                 elif isinstance(par, ast.Compare):
-                    gp = parents.get(id(par))
-                    if isinstance(gp, ast.If) and gp.test is par and all(
-                            isinstance(b, ast.Expr) and isinstance(b.value, ast.Call) and isinstance(b.value.func, ast.Name) and b.value.func.id == "print"
-                            for b in gp.body) and not gp.orelse:
-                        role = "guard-print"
-                    else:
-                        role = "compare"
+                    role = "compare"
                 out.append((fq, n, role))
     return out
 
